@@ -2,7 +2,8 @@
    Model: Model/Ledger.v ([step] mirrors bitcoinlib/wallets.py with fixes/C08-1..3 applied, [step_orig] the code
    before them).  Only statements, witnesses and Print Assumptions here. *)
 From Coq Require Import ZArith List Bool.
-From Verif Require Import Lib.Bytes Model.Ledger Proofs.LedgerBalance Proofs.LedgerInv Proofs.LedgerWitness.
+From Verif Require Import Lib.Bytes Model.Ledger Proofs.LedgerBalance Proofs.LedgerInv Proofs.LedgerGroups
+  Proofs.LedgerWitness.
 Import ListNotations.
 Open Scope Z_scope.
 
@@ -28,6 +29,35 @@ Theorem ledger_consistent : forall d b ops g,
   (forall u, In u (utxos s' (l_default s') 0) -> spent_by_sent (l_txs s') (u_txid u) (u_n u) = false).
 Proof. exact ledger_consistent_proof. Qed.
 
+(* the same with every clause PER GROUP: for every (network, account) of the wallet, not only the default one, the
+   reported balance, the unspent outputs and the key balances agree, and nothing listed for the group (at any
+   confirmation threshold) is consumed by a sent transaction the ledger holds *)
+Theorem ledger_consistent_groups : forall d b ops,
+  ops_ok (init d b) ops = true ->
+  let s' := fst (step (run (init d b) ops) Balance) in
+  forall g,
+  reported s' g = usum s' g /\ ksum s' g = usum s' g /\
+  (forall mc u, In u (utxos s' g mc) -> spent_by_sent (l_txs s') (u_txid u) (u_n u) = false).
+Proof. exact ledger_consistent_groups_proof. Qed.
+
+(* ... and stays so through any sequence of reading calls after it: balance(account_id, network) with its
+   filtered cache / key-balance update, utxos(account_id, network, min_confirms), selection checks *)
+Theorem groups_consistent_after_queries : forall d b ops qs,
+  ops_ok (init d b) ops = true -> forallb is_query qs = true ->
+  let s' := run (fst (step (run (init d b) ops) Balance)) qs in
+  forall g, reported s' g = usum s' g /\ ksum s' g = usum s' g.
+Proof. exact groups_consistent_after_queries_proof. Qed.
+
+(* balance(account_id=fa, network=fn) returns the sum of the unspent outputs of the group it names *)
+Theorem balance_of_value : forall s fa fn,
+  WF s -> snd (step s (BalanceOf fa fn)) = OBal (usum s (lookup_grp s fa fn)).
+Proof. exact balance_of_value_proof. Qed.
+
+(* no guarded history reaches a ledger with an output of a key of one group in a transaction of another *)
+Theorem no_cross_reachable : forall d b ops,
+  ops_ok (init d b) ops = true -> has_cross (run (init d b) ops) = false.
+Proof. exact no_cross_reachable_proof. Qed.
+
 Theorem select_never_spent : forall s g minconf sel txid n,
   Inv s -> snd (step s (Select g minconf sel)) = OSel true -> In (txid, n) sel ->
   spent_by_sent (l_txs s) txid n = false.
@@ -51,6 +81,35 @@ Example history_ok :
   let s := run (init G0 true) ops in
   reported s G0 = 139995301 /\ usum s G0 = 139995301 /\ ksum s G0 = 139995301 /\
   map (fun u => (u_txid u, u_n u)) (utxos s G0 0) = [(102, 0); (901, 1)].
+Proof. vm_compute. repeat split. Qed.
+
+(* non-vacuity, several accounts: keys 6 and 9 of account 0 lie below and above key 8 of account 1 in key-id order;
+   all three are funded, account 1 pays out with change, the wallet is reopened.  Every precondition holds, the
+   reading calls are queries, and each account reports its own unspent outputs = its own key balances *)
+Example groups_history_ok :
+  let ops := [NewKey 6 G0 5; NewKey 8 G1 5; NewKey 9 G0 5; recv_a0; recv_a1; Balance; BalanceOf (Some 1) None;
+              Select G1 1 [(202, 0)]; Store true pay_a1; Reopen] in
+  let qs := [BalanceOf (Some 1) None; UtxosOf G1 0; BalanceOf (Some 0) None; UtxosOf G0 1; Utxos] in
+  ops_ok (init G0 true) ops = true /\ forallb is_query qs = true /\
+  let s := run (fst (step (run (init G0 true) ops) Balance)) qs in
+  reported s G0 = 500000 /\ usum s G0 = 500000 /\ ksum s G0 = 500000 /\
+  reported s G1 = 7000 /\ usum s G1 = 7000 /\ ksum s G1 = 7000 /\
+  snd (step s (BalanceOf (Some 1) None)) = OBal 7000 /\ snd (step s Balance) = OBal 500000 /\
+  map (fun u => (u_txid u, u_n u)) (utxos s G1 0) = [(904, 1)] /\ has_cross s = false.
+Proof. vm_compute. repeat split. Qed.
+
+(* the precondition of UtxosUpdate / Store on the key's group is needed (recorded finding cross_account_output):
+   an output of key 8 (account 1) handed over without naming its account lands in a transaction of account 0;
+   account 0 then reports 5000 that no key of account 0 holds, and the keys of account 1 hold 5000 more than
+   utxos(account 1) lists *)
+Example cross_account_refuted :
+  let ops := [NewKey 6 G0 5; NewKey 8 G1 5; recv_a1] in
+  let s := run (init G0 true) ops in
+  ops_ok (init G0 true) ops = true /\ op_ok s recv_cross = false /\
+  let s' := fst (step (fst (step s recv_cross)) Balance) in
+  has_cross s' = true /\
+  reported s' G0 = 5000 /\ usum s' G0 = 5000 /\ ksum s' G0 = 0 /\
+  reported s' G1 = 20000 /\ usum s' G1 = 20000 /\ ksum s' G1 = 25000.
 Proof. vm_compute. repeat split. Qed.
 
 (* finding 19 (code before fixes/C08-1): utxos_update; sweep(broadcast); balance() keeps reporting 200 000 000
@@ -91,5 +150,9 @@ Print Assumptions inv_step.
 Print Assumptions inv_reachable.
 Print Assumptions balance_after_update.
 Print Assumptions ledger_consistent.
+Print Assumptions ledger_consistent_groups.
+Print Assumptions groups_consistent_after_queries.
+Print Assumptions balance_of_value.
+Print Assumptions no_cross_reachable.
 Print Assumptions select_never_spent.
 Print Assumptions reload_equal.
